@@ -108,8 +108,8 @@ Print Assumptions C13_result_is_original_debug_stmt_refuted.
    which a stub fires logs the error, post() raises AttributeError out of the hook, and the next, healthy,
    completion dies on the handler's assertion *)
 Definition E9 : env := mkEnv RPost true AstTransformers true true ComplGlobal false PmMissing true true true true 20%N true true true.
-Definition IO_unrepaired : io_env := mkIo false true false false false.
-Definition IO_repaired : io_env := mkIo false true false true true.
+Definition IO_unrepaired : io_env := mkIo false true false false false false.
+Definition IO_repaired : io_env := mkIo false true false true true false.
 Definition s9 : state := res_state (enable E9 true (init_state (fun _ => VUnset) [] [0; 1; 2; 3]%N [] true 100%N)).
 
 Theorem C13_completion_refuted :
